@@ -25,6 +25,7 @@ type State struct {
 	alloc string
 	wf    map[string]bool
 	held  map[string]string // lock ghost: mutex key -> "w" | "r"
+	heldRef map[string]string // mutex key -> ref of the object the mutex is a field of
 	ghost map[string]Value  // named snapshot values (lets)
 	memo  map[string]string // named sub-terms (e.g. Int value of a byte term)
 	writes  map[string][]writeRec // heap -> locations written on this path
@@ -50,6 +51,12 @@ func (s *State) clone() *State {
 	}
 	for k, v := range s.held {
 		n.held[k] = v
+	}
+	if s.heldRef != nil {
+		n.heldRef = make(map[string]string, len(s.heldRef))
+		for k, v := range s.heldRef {
+			n.heldRef[k] = v
+		}
 	}
 	if s.writes != nil {
 		n.writes = make(map[string][]writeRec, len(s.writes))
@@ -135,6 +142,7 @@ type Exec struct {
 	tc        *TypeCtx
 	unit      string
 	unitFn    *ssa.Function
+	unitC     *FuncContract
 	obls      []*Obligation
 	boxes     map[string]*Value
 	strs      map[string]string
@@ -258,6 +266,55 @@ func (x *Exec) record(st *State, kind, label, goal string, pos token.Pos, trivia
 		o.Hyps = st.pcList()
 	}
 	x.obls = append(x.obls, o)
+}
+
+// lockedTerm: some mutex that is a field of object `ref` is held on this path.
+func (x *Exec) lockedTerm(st *State, ref string) string {
+	var ors []string
+	for _, k := range sortedKeys(st.heldRef) {
+		if _, ok := st.held[k]; !ok {
+			continue
+		}
+		r := st.heldRef[k]
+		if r == ref {
+			return tTrue
+		}
+		ors = append(ors, mkEq(r, ref))
+	}
+	if len(ors) == 0 {
+		return tFalse
+	}
+	return mkOr(ors...)
+}
+
+// guardCheck: lock-discipline obligation for fields declared `guarded`: the
+// access happens with a mutex of the same object held, or the object was
+// allocated by this very call (not yet shared).
+func (x *Exec) guardCheck(st *State, ref string, objT types.Type, field int, pos token.Pos) {
+	if x.specEval > 0 || len(x.db.Guarded) == 0 {
+		return
+	}
+	n, ok := objT.(*types.Named)
+	if !ok {
+		return
+	}
+	fname := n.Underlying().(*types.Struct).Field(field).Name()
+	scope := x.db.Guarded[qualName(n)+"."+fname]
+	if scope == "" {
+		return
+	}
+	if scope != "*" {
+		in := false
+		if c := x.unitC; c != nil {
+			for _, p := range c.Props {
+				in = in || p == scope
+			}
+		}
+		if !in {
+			return
+		}
+	}
+	x.oblige(st, "guard", n.Obj().Name()+"."+fname, mkOr(mkCmp(">=", ref, "alloc0"), x.lockedTerm(st, ref)), pos)
 }
 
 // safetyCheck emits an automatic safety obligation and then assumes it.
@@ -592,6 +649,7 @@ func (x *Exec) load(st *State, p Value, pos token.Pos) Value {
 			if len(p.Path) == 0 {
 				return x.loadObject(st, p.Ref, p.ObjT)
 			}
+			x.guardCheck(st, p.Ref, p.ObjT, p.Path[0].Field, pos)
 			fv := x.loadField(st, p.Ref, p.ObjT, p.Path[0].Field)
 			return x.getPath(st, fv, p.Path[1:])
 		case BElem:
@@ -637,6 +695,7 @@ func (x *Exec) store(st *State, p Value, v Value, pos token.Pos) {
 				return
 			}
 			fi := p.Path[0].Field
+			x.guardCheck(st, p.Ref, p.ObjT, fi, pos)
 			if len(p.Path) == 1 {
 				x.storeField(st, p.Ref, p.ObjT, fi, v)
 				return
